@@ -8,8 +8,8 @@ Phase 2 (run):  for every survivor the quick-tier units naming the mutated funct
                 A survivor no unit fails on is either an equivalent mutant or a contract gap: listed for reading.
 Nothing is written to /repo; every scratch directory is removed when a phase ends.
 
-usage: mutate.py gen [--per-func N] [--seed S] [--funcs a,b]   -> /tmp/mut/survivors.json
-       mutate.py run [--jobs J]                                -> /tmp/mut/results.json
+usage: mutate.py gen [--per-func N] [--seed S] [--funcs a,b] [--file lexer.l] [--append]   -> /tmp/mut/survivors.json
+       mutate.py run [--jobs J] [--only-alive]   (re-run the survivors no unit reported)        -> /tmp/mut/results.json
 """
 import os, re, sys, json, random, shutil, subprocess, hashlib, concurrent.futures as cf
 
@@ -151,7 +151,7 @@ def run(args):
 
     def one(item):
         tag, m = item
-        if tag in done:
+        if tag in done and not ("--only-alive" in args and done[tag]["exit"] != 1):
             return tag, done[tag]
         tgt = m.get("target", "confuse.c")
         us = units_for("__lexer__" if tgt == "lexer.l" else m["func"])
